@@ -227,7 +227,18 @@ func c14Run(c fw.Case, env *fw.Env) fw.Result {
 						f = reg[rng.Intn(len(reg))] // repeated filter
 					}
 					id := len(reg)
-					err := m.Handle(f, mqtt.HandlerFunc(func(*mqtt.Message) { got = append(got, id) }))
+					rewrite := rng.Intn(3) == 0
+					err := m.Handle(f, mqtt.HandlerFunc(func(msg *mqtt.Message) {
+						got = append(got, id)
+						if rewrite {
+							// a sub-router stripping a prefix: which later handlers run is decided by the topic that was served
+							if i := strings.Index(msg.Topic, "/"); i >= 0 {
+								msg.Topic = msg.Topic[i+1:]
+							} else {
+								msg.Topic = "b"
+							}
+						}
+					}))
 					ops = append(ops, "H "+f)
 					if (err == nil) != refValidFilter(f) {
 						return fail("filter-validity", "ops %v: Handle(%q) err=%v", ops, f, err)
